@@ -143,7 +143,7 @@ impl Prop for C10 {
         "C10"
     }
     fn rule_text(&self) -> String {
-        "case = a switch with 1-6 cases (random boolean expressions over key / key-history / key-timing lt,gt / input / input-history / layer / base-layer leaves, nesting up to depth 8, break / fallthrough, each case a distinct marker key) and a fork, on a 2-layer config with plain keys, a layer-while-held key, layer-switch keys and a virtual key; a random timed history builds up state (keys held, history ages incl. the lossy ranges 255/256, 2303/2304), then the switch / fork key is pressed. A 60-line reference evaluator of the s-expression over a reference state predicts the markers. non-trivial = at least one leaf of every kind present was evaluated against a non-empty state; distinct = (expression, truth pattern of the cases) hash.".into()
+        "case = a switch with 1-6 cases (random boolean expressions over key / key-history / key-timing lt,gt / input / input-history / layer / base-layer leaves, nesting up to depth 8, break / fallthrough, each case a distinct marker key) and a fork, on a 2-layer config with plain keys, a key that is a custom action only (mouse button / message), a layer-while-held key, layer-switch keys and a virtual key; a random timed history builds up state (keys held, history ages incl. the lossy ranges 255/256, 2303/2304), then the switch / fork key is pressed. A 60-line reference evaluator of the s-expression over a reference state predicts the markers. non-trivial = at least one leaf of every kind present was evaluated against a non-empty state; distinct = (expression, truth pattern of the cases) hash.".into()
     }
     fn runs(&self, tier: Tier) -> u64 {
         match tier {
@@ -166,8 +166,11 @@ impl Prop for C10 {
         let swt = l(sw).to_text();
         let fork_trig = *r.pick(&["x", "y", "z", "1"]);
         let mut case = Case { prop: "C10".into(), seed, ..Default::default() };
+        // c is either a plain key or a key whose action is a custom action only (it is an active
+        // *input* while held although it holds no key)
+        let c_act = *r.pick(&["z", "z", "mlft", "(push-msg hi)", "mrgt"]);
         case.cfg = format!(
-            "(defcfg delegate-to-first-layer yes)\n(defsrc a b c d e f s g)\n(defvirtualkeys vk1 1)\n(deflayer l0 x y z (layer-while-held l1) (layer-switch l1) (layer-switch l0) {swt} (fork f7 f8 ({fork_trig})))\n(deflayer l1 _ _ _ _ _ _ _ _)\n"
+            "(defcfg delegate-to-first-layer yes)\n(defsrc a b c d e f s g)\n(defvirtualkeys vk1 1 vk2 XX)\n(deflayer l0 x y {c_act} (layer-while-held l1) (layer-switch l1) (layer-switch l0) {swt} (fork f7 f8 ({fork_trig})))\n(deflayer l1 _ _ _ _ _ _ _ _)\n"
         );
         // history
         let ctx: Vec<u16> = ["a", "b", "c", "d", "e", "f"].iter().map(|k| oscode_of(k)).collect();
